@@ -114,6 +114,8 @@ def eff_pool(X, Y):
         ((eff("assign", n, ("ifun", "F", n)),), 0),
         ((eff("assign", c(X), I(2)),), 0),
         ((eff("inc", m, ("r", 1, 2)),), 0),
+        # two increases of ONE parameterised ground fluent in one action
+        ((eff("inc", c(X), I(1)), eff("inc", c(X), I(1), b)), 0),
     ]
 
 
